@@ -32,6 +32,12 @@ Monitor / oracle
   and unfulfilled expectations are violations.  `frame` must hold the number of the last well-formed
   SOF (judged outside the window after a SOF); is_in/out/setup/ping must equal the decode of `pid`.
 
+Deviations from DESIGN.md section 7: window 6 cycles instead of 4 with strobe-to-packet matching
+(robust against added registers even with 1-cycle inter-packet gaps); in-device the address is set
+through the endpoint's `address_changed/new_address` instead of a SET_ADDRESS transfer (C08 covers
+that path), which makes all 128 addresses cheap to reach; the 2^11 payloads are sampled at random
+(about 45 k well-formed payloads per quick run), not enumerated.
+
 Not judged: `ready_for_response` (C05), the value of pid/address/endpoint between tokens (luna
 clears `pid` on foreign tokens; the statement does not speak about it), `frame` before the first
 SOF, `filter_by_address=False` detectors, address changes while a packet is on the wire.
@@ -41,7 +47,7 @@ from rv.ref.crc import usb2_token_crc5
 from rv.ref.c01_rxwire import RxWire
 
 PROPERTY = "C01"
-CASES = {"quick": 288, "thorough": 5200}
+CASES = {"quick": 384, "thorough": 5600}
 RULE = ("case = (stand-alone 60MHz | stand-alone 12MHz fs_only | in-device spy endpoint) x session of 50-130 packets drawn from "
         "13 classes (good token, good SOF, foreign address, CRC5 bit flip, bad PID nibble, truncated, over-long, non-token PID, ...) "
         "with per-packet lead/gap/trail/idle timing and 2-6 address changes; non-trivial = >=1 accepted token, >=1 SOF and >=3 "
